@@ -1,13 +1,13 @@
 #!/bin/bash
-# usage: bin/mutate.sh <Cxx> <patch-file | 'sed-expr' file>  — run a check against a scratch copy of /repo with a change applied
+# usage: bin/mutate.sh <Cxx[,Cyy]> <patch-file | 'sed-expr' file>  — run checks against a scratch copy of /repo with a change applied
 # examples: bin/mutate.sh C04 /verif/seeded/C04-x/patch.diff
 #           bin/mutate.sh C05 's/== http.StatusTooManyRequests/== 500/' internal/proxy/providers/sso.go
 set -e
 pid=$1; shift
 d=/var/tmp/repo-mut-$pid-$$
+trap 'rm -rf "$d"' EXIT
 rm -rf $d; cp -r /repo $d
-if [ -f "$1" ]; then git -C $d apply "$1"; else sed -i "$1" $d/$2; fi
+if [ -f "$1" ]; then git -C $d apply "$(realpath "$1")"; else sed -i "$1" $d/$2; fi
 git -C $d diff --stat | tail -1
 cd /verif
 for p in ${pid//,/ }; do VERIF_REPO=$d ./check $p ${TIER:-quick} || true; done
-rm -rf $d
